@@ -2,6 +2,7 @@ import Poly.Util.Proto
 import Poly.Model.EthRules
 import Poly.Model.EthHeaderRlp
 import Poly.Model.PoW
+import Poly.Model.EthDeposit
 /- Driver for the Ethereum light-client families. `drv_eth <family>` reads op lines on stdin.
    ethrules (C28): header rules; pow (C27): PoW fork choice; evm (C23): deposit proof decision. -/
 open Poly
@@ -102,8 +103,8 @@ end EthRulesDrv
 namespace PowDrv
 open Poly.Model.EthRules Poly.Model.PoW
 
-/-- rules payload of a header: the fields the header rules read + len(extra) -/
-abbrev Pay := Poly.Model.EthRules.Hdr × Nat
+/-- rules payload of a header: the fields the header rules read, len(extra), state root -/
+abbrev Pay := Poly.Model.EthRules.Hdr × Nat × List UInt8
 abbrev PHdr := Poly.Model.PoW.Hdr String Pay
 
 structure St where
@@ -114,18 +115,18 @@ structure St where
   lo : Nat := 0
   hi : Nat := 0
 
-def validOf (net : Nat) (h p : PHdr) : Bool := checkRules net p.rules.1 h.rules.1 h.rules.2 == .ok
+def validOf (net : Nat) (h p : PHdr) : Bool := checkRules net p.rules.1 h.rules.1 h.rules.2.1 == .ok
 
-/-- hash parent number time difficulty uncleEmpty gasLimit gasUsed baseFee extraLen (salt is not read by the model) -/
+/-- hash parent salt number time difficulty uncleEmpty gasLimit gasUsed baseFee extraLen stateRoot (salt is not read) -/
 def hdrOf : List String → Option PHdr
-  | [hash, parent, _salt, n, t, d, u, gl, gu, bf, ex] =>
+  | [hash, parent, _salt, n, t, d, u, gl, gu, bf, ex, root] =>
     let r : Poly.Model.EthRules.Hdr := ⟨EthRulesDrv.int n, EthRulesDrv.nat t, EthRulesDrv.int d, u == "1", EthRulesDrv.nat gl,
       EthRulesDrv.nat gu, EthRulesDrv.optInt bf⟩
-    some ⟨hash, parent, EthRulesDrv.nat n, EthRulesDrv.nat d, (r, EthRulesDrv.nat ex)⟩
+    some ⟨hash, parent, EthRulesDrv.nat n, EthRulesDrv.nat d, (r, EthRulesDrv.nat ex, Proto.bytesOf root)⟩
   | _ => none
 
-def chunks11 : List String → List (List String)
-  | a :: b :: c :: d :: e :: f :: g :: h :: i :: j :: k :: rest => [a, b, c, d, e, f, g, h, i, j, k] :: chunks11 rest
+def chunks12 : List String → List (List String)
+  | a :: b :: c :: d :: e :: f :: g :: h :: i :: j :: k :: l :: rest => [a, b, c, d, e, f, g, h, i, j, k, l] :: chunks12 rest
   | [] => []
   | l => [l]
 
@@ -158,7 +159,7 @@ def failLabel (net : Nat) (s : Store String Pay) : List PHdr → String
     | .noHead => "reject:nohead"
     | .invalid =>
       match s.index h.parent with
-      | some pe => EthRulesDrv.showVerdict (checkRules net pe.hdr.rules.1 h.rules.1 h.rules.2)
+      | some pe => EthRulesDrv.showVerdict (checkRules net pe.hdr.rules.1 h.rules.1 h.rules.2.1)
       | none => "reject:orphan"
     | _ => failLabel net s' rest
 
@@ -172,7 +173,7 @@ def step (st : St) (toks : List String) : St × String :=
       (st', dump st')
     | none => (st, "bad-op")
   | "sync" :: rest =>
-    match st.store, (chunks11 rest).mapM hdrOf with
+    match st.store, (chunks12 rest).mapM hdrOf with
     | some s, some hs =>
       let (s', outs) := syncCall (validOf st.net) s hs
       let label := if outs.any Outcome.failed then failLabel st.net s hs else "ok"
@@ -184,8 +185,82 @@ def step (st : St) (toks : List String) : St × String :=
 
 end PowDrv
 
+namespace EvmDrv
+open Poly.Model.PoW Poly.Model.EthDeposit
+
+/-- `s:<text>` -/
+def strOf (t : String) : String := (t.drop 2).toString
+
+/-- `l<n>:<a>,<b>,...` -/
+def listOf (t : String) : List String :=
+  match (t.drop 1).toString.splitOn ":" with
+  | n :: rest =>
+    let body := ":".intercalate rest
+    if n.toNat?.getD 0 = 0 then [] else body.splitOn ","
+  | _ => []
+
+def vpResOf (t : String) : VpRes :=
+  if t == "err" then .err else if t == "nil" then .absent else .val (Proto.bytesOf ((t.drop 1).toString |> fun x => if x.isEmpty then "-" else x))
+
+/-- `K:<in>=<out>;...` (a finite table of Keccak-256 values computed by the harness) -/
+def tableOf (t : String) : List (String × String) :=
+  ((":".intercalate ((t.splitOn ":").drop 1)).splitOn ";").filterMap fun kv =>
+    match kv.splitOn "=" with
+    | [k, v] => some (k, v)
+    | _ => none
+
+def missing : List UInt8 := [0xde, 0xad]   -- marks an oracle value the op line does not carry
+
+def kOf (tab : List (String × String)) (x : List UInt8) : List UInt8 :=
+  match tab.lookup (Hex.showHex x) with
+  | some v => Proto.bytesOf v
+  | none => missing ++ x
+
+def vpOf (tab : List (String × String)) (root key : List UInt8) (_nodes : List (List UInt8)) : VpRes :=
+  match tab.lookup (Hex.showHex root ++ "|" ++ Hex.showHex key) with
+  | some v => vpResOf v
+  | none => .val missing
+
+def showReject : Reject → String
+  | .noHead => "nohead" | .notConfirmed => "not-confirmed" | .noHeader => "noheader" | .json => "json"
+  | .format => "format" | .address => "address" | .acctProof => "acct-proof" | .number => "number" | .rlp => "rlp"
+  | .acctMismatch => "acct-mismatch" | .storProof => "storage-proof" | .absent => "absent"
+  | .valueHash => "value-hash" | .decode => "decode"
+
+def showParam (p : TxParam) : String :=
+  ":".intercalate [Hex.showHex p.txHash, Hex.showHex p.crossChainID, Hex.showHex p.fromContract, toString p.toChainID,
+    Hex.showHex p.toContract, Hex.showHex p.method, Hex.showHex p.args]
+
+def storageProofsOf : List String → List StorageProof
+  | k :: p :: rest => ⟨strOf k, listOf p⟩ :: storageProofsOf rest
+  | _ => []
+
+def step (st : PowDrv.St) (toks : List String) : PowDrv.St × String :=
+  match toks with
+  | "deposit" :: btw :: height :: ccmc :: json :: addr :: bal :: code :: nonce :: sh :: ap :: nsp :: rest =>
+    match st.store with
+    | none => (st, "bad-op")
+    | some s =>
+      let n := EthRulesDrv.nat nsp
+      let sps := storageProofsOf (rest.take (2 * n))
+      match rest.drop (2 * n) with
+      | [extra, ktab, vptab] =>
+        let proof : Option EthProof :=
+          if json == "json=ok" then some ⟨strOf addr, strOf bal, strOf code, strOf nonce, strOf sh, listOf ap, sps⟩ else none
+        let K := kOf (tableOf ktab)
+        let vp := vpOf (tableOf vptab)
+        match verifyFromEthTx K vp (fun h : PowDrv.PHdr => h.rules.2.2) s (EthRulesDrv.nat btw) (EthRulesDrv.nat height)
+            (Proto.bytesOf ccmc) proof (Proto.bytesOf extra) with
+        | .ok p => (st, "ok:" ++ showParam p)
+        | .error e => (st, "reject:" ++ showReject e)
+      | _ => (st, "bad-op")
+  | _ => PowDrv.step st toks
+
+end EvmDrv
+
 def main (args : List String) : IO Unit :=
   match args with
   | ["ethrules"] => Proto.run () EthRulesDrv.step
   | ["pow"] => Proto.run ({} : PowDrv.St) PowDrv.step
+  | ["evm"] => Proto.run ({} : PowDrv.St) EvmDrv.step
   | _ => IO.eprintln "usage: drv_eth <family>"
